@@ -442,6 +442,15 @@ class SimIMapIterator(_Job):
         self.next_index = 0
         self._undelivered = set()
         pool.sim.deliveries.append((site, self.delivered))
+        # How far ahead of the results the task handler thread pulls from the argument iterable is a
+        # property of the whole call (a fast handler has pulled everything long before the first result;
+        # a handler blocked on a full pipe stays a few items ahead), drawn once per iterator.
+        d = pool.sim.d
+        self.prefetch_mode = d.draw(f"{site}/prefetch", lambda r: r.choice(["all", "all", "all", "lazy", "ahead"]), "all")
+        self.prefetch_ahead = d.draw(f"{site}/prefetch_n", lambda r: r.randint(1, 8), 2) if self.prefetch_mode == "ahead" else 0
+        if self.prefetch_mode != "all":
+            pool.sim.fired["F7"] += 1
+            pool.sim.probes["prefetch_partial"] += 1
         # the task handler starts pulling as soon as imap returns
         self._pull(initial=True)
 
@@ -470,19 +479,11 @@ class SimIMapIterator(_Job):
             minimum = max(minimum, need_index + 1 - self.submitted)
         if initial:
             minimum = max(minimum, 1)
-        mode = sim.d.draw(
-            f"{self.site}/prefetch/{self.submitted}",
-            lambda r: r.choice(["all", "all", "all", "min", "some"]),
-            "all",
-        )
-        if mode == "all":
+        if self.prefetch_mode == "all":
             while not self.exhausted:
                 self._pull_one_chunk()
             return
-        if mode == "some":
-            minimum += sim.d.draw(f"{self.site}/prefetch_n/{self.submitted}", lambda r: r.randint(1, 6), 1)
-        sim.fired["F7"] += 1
-        sim.probes["prefetch_partial"] += 1
+        minimum += self.prefetch_ahead
         n = 0
         while n < minimum and not self.exhausted:
             n += self._pull_one_chunk()
